@@ -2,7 +2,10 @@
 
 A replay re-drives the code of the CURRENT working tree on the input recorded in the file and lets TLC judge the fresh
 observation; it never writes evidence/<ID>.json (no Report.finish)."""
+import base64
 import json
+import random
+import struct
 
 from ..lib.common import MachineryError
 
@@ -37,3 +40,19 @@ def verdict(pid, path, found):
         return 1
     print('OK property=%s replay: not reproduced' % pid)
     return 0
+
+
+def rnd_state(rnd):
+    """The state of a random.Random as a small JSON-able object: a generator put back into this state makes the same case
+    (program bytes of any size, filler, option choices) again, so the case need not be stored byte by byte."""
+    st = rnd.getstate()
+    return {'version': st[0], 'mt': base64.b64encode(struct.pack('<625I', *st[1])).decode('ascii'), 'gauss': st[2]}
+
+
+def rnd_restore(d):
+    rnd = random.Random(0)
+    try:
+        rnd.setstate((d['version'], tuple(struct.unpack('<625I', base64.b64decode(d['mt']))), d['gauss']))
+    except Exception as e:
+        raise MachineryError('unusable generator state in the replay file: %s: %s' % (type(e).__name__, e))
+    return rnd
